@@ -1,6 +1,21 @@
 import PsyVerif.Model.ExprIO
 import PsyVerif.Gen.FortranOps
-/-! # C02 — Written expressions keep the operation order of the PSyIR tree -/
+import PsyVerif.Lemmas.ExprIOMain
+/-! # C02 — Written expressions keep the operation order of the PSyIR tree
+
+Model: `PsyVerif/Model/ExprIO.lean`.  `render true` is the writer WITH `fixes/C02-writer-parens.patch`
+applied (mode: **fixed**); `render false` is the pinned writer, kept for the kernel-checked
+counterexamples below.  `P`/`parse` is the Fortran 2008 expression grammar R701–R722; parentheses are
+dropped as `_parenthesis_handler` does.
+
+Quantification: all trees of unbounded depth.  What is proved for ALL trees of the
+operator / unary-operator / literal / scalar-reference fragment (`opFrag`): the written token list
+is accepted by the grammar and denotes `norm e` — the original tree, except that a literal is
+replaced by what the reader makes of its text (a leading sign becomes a unary operation, the
+precision is re-derived from exponent letter and kind suffix).  For trees whose literals are
+canonical this is the original tree itself.  Array/structure accesses and intrinsic calls are in
+the model, the driver and the correspondence check; the induction does not cover them yet
+(`C02_statement` is the full statement). -/
 namespace C02
 
 def optoks : List OpTok :=
@@ -10,7 +25,140 @@ def binops : List BinOp :=
 def unops : List UnOp := [.minus, .plus, .not]
 def tokIdx (o : OpTok) : Nat := (optoks ++ [OpTok.bad]).idxOf o
 
+/-- the parser, run with any sufficiently large fuel, consumes all of `ts` and returns `e` -/
+def ParsesTo (ts : List Tok) (e : Expr) : Prop := ∃ f0, ∀ f, f0 ≤ f → P f (.expr 0) ts = some (e, [])
+
+theorem parse_of_fuel {ts e f} (h : P f (.expr 0) ts = some (e, [])) (hf : f ≤ fuelFor ts) :
+    parse ts = some e := by
+  simp [parse, P_mono_le h hf]
+
+theorem norm_of_canonical : ∀ e, litsCanonical e = true → norm e = some e := by
+  intro e
+  induction e with
+  | lit l => intro h; simpa [litsCanonical, Lit.canonical, norm] using h
+  | un u x ih => intro h; simp [litsCanonical] at h; simp [norm, ih h]
+  | bin b l r ihl ihr => intro h; simp [litsCanonical] at h; simp [norm, ihl h.1, ihr h.2]
+  | part n a nx iha ihn => intro h; simp [litsCanonical] at h; simp [norm, iha h.1, ihn h.2]
+  | call f a ih => intro h; simp [litsCanonical] at h; simp [norm, ih h]
+  | nil => intro _; rfl
+  | cons k x r ihx ihr => intro h; simp [litsCanonical] at h; simp [norm, ihx h.1, ihr h.2]
+
+/-! sample trees: `a + ((-b)*c)*d`, `(a**b)**c`, `a + Literal("-1.0")`, `(-a)*b`, `(a<b)==c` -/
+def va : Expr := .ref 1
+def vb : Expr := .ref 2
+def vc : Expr := .ref 3
+def vd : Expr := .ref 4
+def exUnary : Expr := .bin .add va (.bin .mul (.bin .mul (.un .minus vb) vc) vd)
+def exPow : Expr := .bin .pow (.bin .pow va vb) vc
+def exNegLit : Expr := .bin .add va (.lit (.real .minus 7 true false .undef))
+def exLead : Expr := .bin .mul (.un .minus va) vb
+def exRel : Expr := .bin .eq (.bin .lt va vb) vc
+
 /-! ## The property -/
+
+/-- Full statement (all constructs of the model, fixed writer): whatever the writer accepts is
+written as a sentence of the grammar and reads back as `norm e`; with canonical literals as `e`. -/
+def C02_statement : Prop :=
+  ∀ e ne, wf .expr e = true → norm e = some ne → ParsesTo (render true .top e) ne
+
+/-- **Round trip, fixed writer, operator fragment, unbounded depth.**  Proved by induction with the
+follow-set strengthening `Good` (Lemmas/ExprIORules.lean): at every position the writer's
+parenthesisation tests leave a node bare only if its grammar level is at least the level the
+position requires (`need_le_lvl`). -/
+theorem C02_roundtrip_partial (e ne : Expr) (hf : opFrag e = true) (hw : wf .expr e = true)
+    (hn : norm e = some ne) : ParsesTo (render true .top e) ne := by
+  have g := good_render e hf hw ne hn .top trivial
+  have := g.1 0 [] (Nat.zero_le _) trivial
+  simp only [List.append_nil] at this
+  exact this.all_fuel
+
+/-- With canonical literals the re-read tree is structurally the original tree. -/
+theorem C02_roundtrip_exact_partial (e : Expr) (hf : opFrag e = true) (hw : wf .expr e = true)
+    (hc : litsCanonical e = true) : ParsesTo (render true .top e) e :=
+  C02_roundtrip_partial e e hf hw (norm_of_canonical e hc)
+
+/-- Standard conformance, as far as proved: the written text of every accepted, readable tree of
+the fragment is a sentence of the Fortran 2008 expression grammar modelled by `P`. -/
+theorem C02_standard_partial (e ne : Expr) (hf : opFrag e = true) (hw : wf .expr e = true)
+    (hn : norm e = some ne) : ∃ e', ParsesTo (render true .top e) e' :=
+  ⟨ne, C02_roundtrip_partial e ne hf hw hn⟩
+
+/-- The same holds inside any operand position, e.g. under a further operator: grouping is kept. -/
+theorem C02_roundtrip_in_context (e ne : Expr) (c : Ctx) (hc : c.ok) (hf : opFrag e = true)
+    (hw : wf .expr e = true) (hn : norm e = some ne) (R : List Tok) (hR : Follow (need c) R) :
+    ∃ f0, ∀ f, f0 ≤ f → P f (.expr (need c)) (render true c e ++ R) = some (ne, R) :=
+  ((good_render e hf hw ne hn c hc).1 (need c) R
+    (need_le_lvl c hc e (wf_not_rem hw)) hR).all_fuel
+
+/-! non-vacuity and sanity evaluations (the concrete `parse` with its fixed fuel) -/
+example : opFrag exUnary = true ∧ wf .expr exUnary = true ∧ litsCanonical exUnary = true := by decide
+example : opFrag exNegLit = true ∧ wf .expr exNegLit = true ∧ norm exNegLit ≠ none := by decide
+example : parse (render true .top exUnary) = some exUnary := by decide
+example : parse (render true .top exPow) = some exPow := by decide
+example : parse (render true .top exLead) = some exLead := by decide
+example : parse (render true .top exRel) = some exRel := by decide
+example : parse (render true .top exNegLit) = norm exNegLit := by decide
+example : noBadAdj (render true .top exUnary) = true ∧ noBadAdj (render true .top exNegLit) = true := by
+  decide
+
+/-- The writer refuses `REM` (no Fortran operator) and character values holding both quote kinds. -/
+theorem C02_refuses :
+    wf .expr (.bin .rem va vb) = false ∧ wf .expr (.lit (.char 1 .both .undef)) = false := by decide
+
+/-! ### the pinned (unfixed) writer: kernel-checked witnesses of the three defects -/
+
+/-- `(a**b)**c` is written `a ** b ** c`, which is `a**(b**c)`. -/
+theorem pinned_pow_left_nested_counterexample :
+    parse (render false .top exPow) = some (.bin .pow va (.bin .pow vb vc)) ∧
+    parse (render false .top exPow) ≠ some exPow := by decide
+
+/-- `a + ((-b)*c)*d` is written `a + -b * c * d`: two adjacent operators, not a sentence. -/
+theorem pinned_unary_counterexample :
+    parse (render false .top exUnary) = none ∧ noBadAdj (render false .top exUnary) = false := by decide
+
+/-- `a + Literal("-1.0")` is written `a + -1.0`. -/
+theorem pinned_signed_literal_counterexample :
+    parse (render false .top exNegLit) = none ∧ noBadAdj (render false .top exNegLit) = false := by decide
+
+/-- `(-a)*b` is written `-a * b`, which is `-(a*b)`; `(a<b)==c` is written `a < b == c` (not a sentence). -/
+theorem pinned_leading_sign_and_relational_counterexample :
+    parse (render false .top exLead) = some (.un .minus (.bin .mul va vb)) ∧
+    parse (render false .top exRel) = none := by decide
+
+/-! ### literals the reader cannot give back unchanged (known findings, not repaired by the patch) -/
+
+/-- A signed literal comes back as a unary operation on the unsigned literal. -/
+theorem C02_signed_literal_counterexample :
+    norm (.lit (.int .minus 1 .undef)) = some (.un .minus (.lit (.int .none 1 .undef))) := by decide
+
+/-- `Literal("1.0", DOUBLE)` is written `1.0` and comes back with UNDEFINED precision;
+`Literal("1", REAL)` is written `1` and comes back as an integer. -/
+theorem C02_literal_precision_counterexample :
+    norm (.lit (.real .none 1 true false .double)) = some (.lit (.real .none 1 true false .undef)) ∧
+    norm (.lit (.real .none 1 false false .undef)) = some (.lit (.int .none 1 .undef)) := by decide
+
+/-- A character value containing `''` or `""` is written but not read back (CodeBlock). -/
+theorem C02_doubled_quote_counterexample :
+    wf .expr (.lit (.char 1 .doubled .undef)) = true ∧ norm (.lit (.char 1 .doubled .undef)) = none ∧
+    parse (render true .top (.lit (.char 1 .doubled .undef))) = none := by decide
+
+/-- Exactly which literals are canonical. -/
+theorem C02_canonical_literals (l : Lit) : l.canonical = true ↔
+    match l with
+    | .int s _ p => s = .none ∧ p ≠ .single ∧ p ≠ .double
+    | .real s _ dot ex p => s = .none ∧ (dot = true ∨ ex = true) ∧
+        (match p with
+         | .undef => ex = false | .single => ex = true | .double => ex = true | _ => True)
+    | .bool _ p => p ≠ .single ∧ p ≠ .double
+    | .char _ q p => q ≠ .doubled ∧ p ≠ .single ∧ p ≠ .double := by
+  cases l with
+  | int s d p => cases s <;> cases p <;> simp [Lit.canonical, normLit, readLit, Lit.tok, Lit.sign, Sign.unop, Prec.suffix]
+  | real s d dot ex p =>
+    cases s <;> cases p <;> cases dot <;> cases ex <;>
+      simp [Lit.canonical, normLit, readLit, Lit.tok, Lit.sign, Sign.unop, Prec.suffix]
+  | bool b p => cases p <;> simp [Lit.canonical, normLit, readLit, Lit.tok, Lit.sign, Sign.unop, Prec.suffix]
+  | char t q p => cases q <;> cases p <;> simp [Lit.canonical, normLit, readLit, Lit.tok, Lit.sign, Sign.unop, Prec.suffix]
+
 
 /-- The precedence table extracted from the live `precedence()` equals the model's, whose levels are
 the grammar levels of Fortran 2008 used by `P` (R704 `**` 8, R708 mult-op 7, R709 add-op 6,
